@@ -120,7 +120,8 @@ class Ctx:
     # ---- finishing
     def finish(self):
         wall = time.time() - self.t0
-        ev_dir = os.path.join(VERIF, "evidence")
+        # runs against a scratch tree (VERIF_REPO: seeds, mutation campaigns) keep their evidence out of /verif/evidence
+        ev_dir = os.path.join(VERIF, "evidence") if REPO == "/repo" else os.path.join("/dev/shm", "baize-verif-evidence", os.path.basename(REPO.rstrip("/")))
         os.makedirs(ev_dir, exist_ok=True)
         nontriv = self.nontrivial_count + len(self.nontrivial)
         cov = {
